@@ -251,6 +251,7 @@ UNIT = dict(
     'vhm.extract.iff_present': dict(deciding=True, text='do_extract/extract/erase return true iff the key was in the bucket; then the key is absent afterwards, the accessor carries the value that was stored, every other key keeps its value, Inv_B holds'),
     'vhm.extract.pool': dict(deciding=True, text='a removal returns exactly the unlinked extension item to the free list of its own extension bucket; all other pool items stay where they were'),
     'vhm.emplace.iff_absent': dict(deciding=True, text='do_get_or_emplace returns true iff the key was absent; then the key maps to the value the factory produced (called exactly once), every other key keeps its value, Inv_B holds and the callback gets an accessor to the new element; otherwise nothing changes and the callback gets the existing element; an exception leaves the map unchanged'),
+    'vhm.emplace.publish_order': dict(deciding=True, text='writer guarantee for insertions: at the store (or exchange) that makes a new extension item reachable from the bucket its key, value and next already have their final values (next == the pointer being replaced), the store is release-or-stronger, it happens exactly once per extension insertion, and no field of the item is written afterwards; removals and failed operations publish nothing'),
     'vhm.emplace.pool': dict(deciding=True, text='an insertion consumes exactly one free extension item iff the bucket array is full; on an exception the item is back in its free list'),
     'vhm.emplace.retry_state': dict(deciding=True, text='when no extension item is free the operation calls grow once with the locked bucket and its state, has changed nothing, and does not write the old bucket after grow released it (unlocker disabled) before retrying'),
     'vhm.alloc_ext.pops_free': dict(deciding=True, text='allocate_extension_item returns null iff every free list of the block is empty; otherwise it pops the head of the first non-empty list in probe order (hash + idx) & (count - 1), leaves every other item and list unchanged and releases the extension bucket lock'),
